@@ -27,6 +27,14 @@ T = {
          'Generated allocator-heavy histories (next_id, explicit adds around the allocator, collections, clone, merge, script variables); freshness invariant over the history. Exploration only.',
          'trusted: history bookkeeping; next_id generated only inside its documented domain (an absent id at or above the allocator position remains)',
          'stateful property testing; oracle = invariant over the history of returned ids'),
+ 'C06': ('cycles', 'exploration',
+         'Long generated histories of hundreds to thousands of create-fill-read cycles over a rotating id window with 0..13 long-lived groups and overlapping cycles; the alive set is compared with the reference model after every call, so a slot that is not handed back or handed back while referenced shows as soon as the 14 slots wrap.',
+         'trusted: reference model; bounds: quick 40..300 cycles per history, thorough up to 3000; capacities 8..256',
+         'model-based stateful property testing with a structured (cycle/scheduler) generator'),
+ 'C07': ('asan-seq', 'exploration',
+         'Generated call sequences (in-domain histories ended by exactly one limit overrun that must panic; anything-goes sequences with tolerated panics) executed inside an AddressSanitizer build with debug assertions; thorough adds a MemorySanitizer build and a coverage-guided libFuzzer+ASan campaign on a byte-level target with the same oracle inside.',
+         'trusted: the sanitizers; ASan cannot see uninitialised reads (MSan stage in thorough only) nor out-of-bounds accesses that land inside another live allocation; claimed for builds with debug assertions',
+         'property-based sequence generation + coverage-guided fuzzing (cargo-fuzz/libFuzzer) under ASan/MSan with the panic-contract oracle in the target'),
  'C08': ('twin', 'exploration',
          'Differential twin runs: g built by a generated history, g2 = load(save(g)) through a real file; complete observations must agree and a generated continuation plus drain epilogue on both must produce identical traces (results, collections, all query outputs). Exploration only.',
          'trusted: the interpreter; the comparison is implementation vs implementation; allocator-dependent calls are generated only when the one permitted difference (allocator restart) cannot show',
@@ -99,12 +107,11 @@ for p in props:
         'level_note': note,
         'technique': tech,
     })
-na = [{'property_id': p['id'], 'reason': 'check under construction in this session (its engine is not committed yet); nothing is claimed for it'}
-      for p in props if p['id'] not in T]
+na = [{'property_id': p['id'], 'reason': 'not claimed'} for p in props if p['id'] not in T]
 engines = {}
 for i in claimed:
     engines.setdefault(T[i][0], []).append(i)
-paths = {'digraph': 'harness/src/props/digraph.rs', 'treegen': 'harness/src/props/trees.rs', 'scriptgen': 'harness/src/props/script.rs', 'twin': 'harness/src/props/twin.rs', 'prefixes': 'harness/src/props/prefixes.rs', 'multi-config': 'harness/src/props/multi.rs', 'gcmodel': 'harness/src/engine.rs', 'hexenum': 'harness/src/props/hexlab.rs', 'concatenum': 'harness/src/props/hexlab.rs', 'labels': 'harness/src/props/hexlab.rs'}
+paths = {'cycles': 'harness/src/props/cycles.rs', 'asan-seq': 'harness/src/props/asan.rs + fuzz/fuzz_targets/seq.rs + checks.d/C07*.sh', 'digraph': 'harness/src/props/digraph.rs', 'treegen': 'harness/src/props/trees.rs', 'scriptgen': 'harness/src/props/script.rs', 'twin': 'harness/src/props/twin.rs', 'prefixes': 'harness/src/props/prefixes.rs', 'multi-config': 'harness/src/props/multi.rs', 'gcmodel': 'harness/src/engine.rs', 'hexenum': 'harness/src/props/hexlab.rs', 'concatenum': 'harness/src/props/hexlab.rs', 'labels': 'harness/src/props/hexlab.rs'}
 m = {
     'version': 1,
     'setup_cmd': './setup.sh',
